@@ -338,7 +338,7 @@ pub fn run(ctx: &Ctx) -> Report {
     total.extra.insert("programs".into(), json!(total.evaluations));
     Report {
         stats: total,
-        rule: format!("random trees (depth<={depth}, <={size} nodes) over every supported test and action built from the public constructors (20% re-obtained by parsing their rendered text), arguments from boundary-rich domains; each compiled program is read by an independent Scheme reader and executed by a model of the Guile/LiPE runtime on a file set directed at every constant of the tree (value-1/value/value+1 per unit, each permission/type bit, matching/near-miss names, present/absent pools and xattrs) plus 3-8 random records. Oracle: evaluation of the tree by find's rules (short-circuit, ',' as AND, implicit print, N/+N/-N, round-up sizes, floor ages, fnmatch) -> truth value, ordered outputs (destination, bytes, terminator), stop request, no run-time failure. Non-trivial: tree has >=1 operator and >=1 test with a constant and both truth values (or >=2 distinct output lists) were observed over its file set. Distinct: by (tree, random files)."),
+        rule: format!("random trees (depth<={depth}, <={size} nodes) over every supported test and action built from the public constructors (20% re-obtained by parsing their rendered text), arguments from boundary-rich domains; each compiled program is read by an independent Scheme reader and executed by a model of the Guile/LiPE runtime on a file set directed at every constant of the tree (value-1/value/value+1 per unit, each permission/type bit, matching/near-miss names, present/absent pools and xattrs) plus 3-8 random records. Oracle: evaluation of the tree by find's rules (short-circuit, ',' as AND, implicit print, N/+N/-N, round-up sizes, floor ages, fnmatch) -> truth value, ordered outputs (destination, bytes, terminator), stop request, no run-time failure. Directed parts, each on the directed file set of its tree: interaction triples (three leaf kinds x 18 operator skeletons), context pairs (every kind of leaf after every kind of context leaf, among them a formatted print with each directive), sibling pairs (two primaries of one kind with different constants under every operator), requests that a concatenated key would confuse, ages and sizes whose count is a multiple of a larger unit, every keyword alone and under each operator shape, every directive and escape of the format language; a fifth of the random trees have the strings of two leaves related (equal, prefix, suffix, other case); equal subtrees are compiled as shared nodes in half of the trees that have any. Non-trivial: tree has >=1 operator and >=1 test with a constant and both truth values (or >=2 distinct output lists) were observed over its file set. Distinct: by (tree, random files)."),
         assumptions: runtime_assumptions(),
         exhaustive: false,
     }
